@@ -503,14 +503,20 @@ func (root *Root) resolveField(
 		Errors(ea).in(field.key())
 		return
 	}
-	const queryType = "Query"
+	// The meta-fields are on the type the schema names for queries.
+	isQuery := t.Name() == "Query"
+	if root.schema != nil {
+		if fd := root.schema.fields.get(string(OpQuery)); fd != nil && fd.Type != nil {
+			isQuery = t == fd.Type
+		}
+	}
 	var ea2 []error
 	switch field.Name {
 	case "__typename":
 		result[field.key()] = t.Name()
 		return nil
 	case "__type":
-		if t.Name() == queryType {
+		if isQuery {
 			var fv interface{} // field value
 			var av *ArgValue
 
@@ -542,7 +548,7 @@ func (root *Root) resolveField(
 		ea = append(ea, resWarnp(field, "__type meta-field is only on the query object"))
 		return
 	case "__schema":
-		if t.Name() == queryType {
+		if isQuery {
 			var fv interface{} // field value
 
 			fv, ea2 = root.resolve(root, vars, field, root.uuSchemaType, depth)
